@@ -24,8 +24,12 @@ Transcribed (same branches, same order of side effects):
 * the entry paths `Expression.Eval` (`evalTop`: `Type`, `EvalX` by type, `recover`), `EvalPredicate`'s
   `Type`-then-`EvalBool` (`evalPred`), direct `EvalX` (`evalDirect`), `CopyReset` (fresh `FnState`, SAME cache), and `kapacitor.EvalPredicate` of the root
   package (`evalPoint`: `fillScope` over `FindReferenceVariables`, then `evalPred`).
+* `EvalLambdaNode` (`Expr.lam`): constant type / `IsDynamic` / `Type` of the body, every `EvalX` = `Type`, type test, then
+  the body's `EvalX` with the state the NODE owns (created once in `NewEvalLambdaNode`), not the state passed in; the
+  states of the lambda nodes travel in `FnState.lams`, and `World` (end of this file) says who shares what: cache and
+  lambda-node states belong to the compiled expression and are shared by all `CopyReset` copies, `Funcs` are per copy.
 Abstracted: error values are one class (no decision of the repaired evaluator depends on the error);
-`EvalLambdaNode` (see `C04Lambda.lean`), dynamic functions registered on a scope, `rand`, `now` are not modelled; the cache is a tree parallel to the expression.
+dynamic functions registered on a scope, `rand`, `now`, `Expression.Reset` are not modelled; the cache is a tree parallel to the expression.
 Core Lean only.
 -/
 import Kap.Model.C04Lib
@@ -42,6 +46,11 @@ inductive Expr (F : Type) where
   | call3 (fn : String) (a b c : Expr F)
   | call4 (fn : String) (a b c d : Expr F)   -- `maxArgs` arguments (`strReplace`)
   | callMany (fn : String)          -- a call with more than `maxArgs` (= 4) arguments
+  /-- a lambda node INSIDE an expression (`var w = lambda: count() > 1` used in `|where(lambda: w AND …)`):
+  `EvalLambdaNode`. `id` names the node: `NewEvalLambdaNode` creates ONE `ExecutionState` per node, at construction.
+  A compiled expression numbers its lambda nodes with pairwise different ids (the driver numbers them in preorder);
+  no theorem depends on that. -/
+  | lam (id : Nat) (e : Expr F)
 deriving Repr, Inhabited
 
 abbrev Scope (F : Type) := List (String × Value F)
@@ -60,8 +69,8 @@ structure Ctx (F : Type) where
   reMatch : Bytes → Bytes → Option Bool
   call : String → List (Value F) → Option (ORes F)
 
-/-- per-expression state of the stateful builtins (`ExecutionState.Funcs`). -/
-structure FnState (F : Type) where
+/-- the stateful builtins of ONE `ExecutionState` (`ExecutionState.Funcs`: one instance each of count, sigma, spread). -/
+structure FnBase (F : Type) where
   count : Int
   sMean : F
   sVar : F
@@ -70,9 +79,28 @@ structure FnState (F : Type) where
   spMin : F
   spMax : F
 
-def FnState.init {F} (ops : FOps F) : FnState F :=
+def FnBase.init {F} (ops : FOps F) : FnBase F :=
   { count := 0, sMean := ops.ofInt 0, sVar := ops.ofInt 0, sM2 := ops.ofInt 0, sN := ops.ofInt 0,
     spMin := ops.posInf, spMax := ops.negInf }
+
+/-- Everything stateful an evaluation can touch: the `ExecutionState` it was handed (the fields inherited from
+`FnBase`: the state of the expression instance = of the group) and the `ExecutionState`s owned by the lambda NODES
+(`EvalLambdaNode.state`), by node id. The latter belong to the node evaluators: `CopyReset` copies share them (see
+`World` below) — the evaluator itself only ever sees this pair. -/
+structure FnState (F : Type) extends FnBase F where
+  lams : Nat → FnBase F
+
+def FnState.init {F} (ops : FOps F) : FnState F :=
+  { toFnBase := FnBase.init ops, lams := fun _ => FnBase.init ops }
+
+/-- the state the body of lambda node `i` runs with: the node's own `ExecutionState` (`n.state`), whatever state was
+passed in; the other lambda nodes keep theirs. -/
+def FnState.enter {F} (st : FnState F) (i : Nat) : FnState F := { toFnBase := st.lams i, lams := st.lams }
+
+/-- back from the body of lambda node `i`: the caller's own functions are untouched, node `i` keeps what its body
+left, the lambda nodes nested in the body keep what they left. -/
+def FnState.leave {F} (st inner : FnState F) (i : Nat) : FnState F :=
+  { toFnBase := st.toFnBase, lams := fun j => if j = i then inner.toFnBase else inner.lams j }
 
 /-- the specialisation cache: one record per node, children in `k1 k2 k3`. Only binary nodes use the
 record (`leftType`, `rightType`, `evaluationFn` — `none` is Go's nil function). -/
@@ -111,6 +139,7 @@ def constType : Expr F → Ty
     match lookup ctx.tbl op (constType l) (constType r) with
     | some ent => ent.ret
     | none => .invalid
+  | .lam _ e => constType e
   | _ => .invalid
 
 /-- `IsDynamic()`. -/
@@ -119,6 +148,7 @@ def isDyn : Expr F → Bool
   | .ref _ => true
   | .un op e => if constType ctx (.un op e) ≠ .invalid then false else isDyn e
   | .bin op l r => if constType ctx (.bin op l r) ≠ .invalid then false else (isDyn l || isDyn r)
+  | .lam _ e => isDyn e
   | _ => true
 
 /-- `NewExpression` succeeds: a binary node whose operands are both non-dynamic must find its function. -/
@@ -131,6 +161,7 @@ def compileOk : Expr F → Bool
   | .call2 _ a b => compileOk a && compileOk b
   | .call3 _ a b c => compileOk a && compileOk b && compileOk c
   | .call4 _ a b c d => compileOk a && compileOk b && compileOk c && compileOk d
+  | .lam _ e => compileOk e
   | _ => true
 
 /-- the cache right after `NewExpression`. -/
@@ -146,6 +177,7 @@ def compileCache : Expr F → Cache
   | .call4 _ a b c d =>
     .node .invalid .invalid none (compileCache a) (compileCache b)
       (.node .invalid .invalid none (compileCache c) (compileCache d) .leaf)
+  | .lam _ e => .node .invalid .invalid none (compileCache e) .leaf .leaf
   | _ => .leaf
 
 /-- `Signature()[domain]` for a builtin; `none` = undefined function or no such signature. -/
@@ -199,6 +231,7 @@ def typeP : Expr F → Option Ty
        | none => none)
     | none => none
   | .callMany _ => none
+  | .lam i e => if constType ctx (.lam i e) ≠ .invalid then some (constType ctx (.lam i e)) else typeP e
 
 /-- `Type(scope)`: its writes to the cache (`n.leftType, err = …; n.rightType, err = …` on dynamic math nodes). -/
 def typeW : Expr F → Cache → Cache
@@ -230,6 +263,7 @@ def typeW : Expr F → Cache → Cache
         if (typeP ctx σ d).isSome then c3.setK3b (typeW e c.k3b) else c3
       else c2
     else c1
+  | .lam i e, c => if constType ctx (.lam i e) ≠ .invalid then c else c.setK1 (typeW e c.k1)
   | _, c => c
 
 /-- the type guard at the end of every `EvalX`. -/
@@ -297,6 +331,7 @@ argument evaluation of a function call swallows)? -/
 def missOk : Expr F → Bool
   | .ref _ => true
   | .un _ (.ref _) => true
+  | .lam _ e => missOk e      -- `EvalLambdaNode.EvalMissing` hands the body's answer (value and error) through
   | _ => false
 
 /-- generic `eval(n, scope, state)` used for function arguments: `Type` first, then the `EvalX` of that type. -/
@@ -460,6 +495,17 @@ def evalC (w : Ty) : Expr F → Cache → FnState F → Outcome (Value F) × Cac
     -- callFunction evaluates the (literal) arguments and calls: every builtin rejects > 4 arguments, count ignores them
     let (res, st') := callFn ctx fn [.missing, .missing, .missing, .missing, .missing] st
     (chk w res, c, st')
+  | .lam i e, c, st =>
+    -- every `EvalX` of the node: `Type` first (with its cache writes); then, when the type is X, the body's `EvalX` with
+    -- the NODE's state `n.state` — the state passed in is ignored; `EvalTime` always refuses
+    let c1 := typeW ctx σ (.lam i e) c
+    match typeP ctx σ (.lam i e) with
+    | none => (.err, c1, st)
+    | some typ =>
+      if typ = w ∧ w ≠ .time then
+        let (r, k, inner) := evalC w e c1.k1 (st.enter i)
+        (r, c1.setK1 k, st.leave inner i)
+      else (.err, c1, st)
 
 /-- The same evaluator with the cache ERASED: every binary node takes its function from the table for the
 operand types it has now (the constant types when both operands are non-dynamic). It is what a freshly
@@ -565,6 +611,14 @@ def evalN (w : Ty) : Expr F → FnState F → Outcome (Value F) × FnState F
   | .callMany fn, st =>
     let (res, st') := callFn ctx fn [.missing, .missing, .missing, .missing, .missing] st
     (chk w res, st')
+  | .lam i e, st =>
+    match typeP ctx σ (.lam i e) with
+    | none => (.err, st)
+    | some typ =>
+      if typ = w ∧ w ≠ .time then
+        let (r, inner) := evalN w e (st.enter i)
+        (r, st.leave inner i)
+      else (.err, st)
 
 /-- `Expression.Eval`: `Type`, then the `EvalX` of that type; a panic is recovered into an error. -/
 def evalTop (e : Expr F) (c : Cache) (st : FnState F) : Outcome (Value F) × Cache × FnState F :=
@@ -641,6 +695,7 @@ def refsOf {F : Type} : Expr F → List String
   | .call2 _ a b => refsOf a ++ refsOf b
   | .call3 _ a b c => refsOf a ++ refsOf b ++ refsOf c
   | .call4 _ a b c d => refsOf a ++ refsOf b ++ refsOf c ++ refsOf d
+  | .lam _ e => refsOf e      -- `ast.Walk` descends into lambda nodes
   | _ => []
 
 def assoc {α : Type} (l : List (String × α)) (n : String) : Option α :=
@@ -672,5 +727,30 @@ def evalPoint {F : Type} (ctx : Ctx F) (e : Expr F) (p : Point F) (c : Cache) (s
 any scope, with the function state of any group (`CopyReset` copies share the cache). -/
 def reach {F : Type} (ctx : Ctx F) (e : Expr F) (pre : List (Path × Scope F × FnState F)) : Cache :=
   pre.foldl (fun c x => (runPath ctx x.2.1 x.1 e c x.2.2).2.1) (compileCache ctx e)
+
+/-! ### one compiled expression and its `CopyReset` copies (one per group) -/
+
+/-- What exists at run time for ONE compiled expression used by several groups: the node evaluators — with their
+specialisation cache AND the `ExecutionState` of every lambda node — exist once and are shared by all `CopyReset`
+copies (`CopyReset` copies the `nodeEvaluator` pointer); each copy owns the `ExecutionState` it hands to the root node. -/
+structure World (F : Type) where
+  cache : Cache
+  lams : Nat → FnBase F
+  groups : Nat → FnBase F
+
+/-- right after `NewExpression`; every copy `CopyReset` will ever make starts with fresh functions. -/
+def World.init {F : Type} (ctx : Ctx F) (e : Expr F) : World F :=
+  { cache := compileCache ctx e, lams := fun _ => FnBase.init ctx.ops, groups := fun _ => FnBase.init ctx.ops }
+
+/-- the copy of group `g` is asked through path `p` against scope `σ`. -/
+def World.step {F : Type} (ctx : Ctx F) (e : Expr F) (w : World F) (g : Nat) (p : Path) (σ : Scope F) :
+    Outcome (Value F) × World F :=
+  let r := runPath ctx σ p e w.cache { toFnBase := w.groups g, lams := w.lams }
+  (r.1, { cache := r.2.1, lams := r.2.2.lams, groups := fun j => if j = g then r.2.2.toFnBase else w.groups j })
+
+/-- the answers to a sequence of questions (group, path, scope). -/
+def World.run {F : Type} (ctx : Ctx F) (e : Expr F) : World F → List (Nat × Path × Scope F) → List (Outcome (Value F))
+  | _, [] => []
+  | w, q :: rest => (w.step ctx e q.1 q.2.1 q.2.2).1 :: World.run ctx e (w.step ctx e q.1 q.2.1 q.2.2).2 rest
 
 end Kap.C04
